@@ -13,7 +13,7 @@ func init() {
 		technique: "guard-dominance over the CFG of tryPassivation and the manager's trigger, lockset on the manager state with caller-holds propagation, dataflow of the deadline (latest activity + timeout), constant-table check of the coalescing slack",
 		explanation: "Decides: (1) in tryPassivation every call of doStop is dominated by the long-lived test, the system-stopping test, the skip-next CAS and the stopping/suspended/paused tests, and the skip-next CAS is repeated after stopLocker was taken; (2) manager: entries, queue and every passivationEntry field are accessed only under the manager's mutex (helpers only with it held); in trigger the deadline is re-evaluated under the lock after the timer fired ('deadline still in the future' returns) and that test dominates the call into passivate; Pause removes the entry from the heap and marks it paused, Touch ignores paused entries, nextEntry skips paused entries; an entry is queued on the deadline heap only after its deadline was recomputed from the latest activity (Register, Resume, re-queue); (3) the deadline is computed as latest-activity + timeout; markActivity records the receive time unconditionally (the Touch may be coalesced, the timestamp is not); handleReceived marks activity before invoking the handler; (4) message-count strategy: the baseline is processed+1 at registration; (5) passivation stops through doStop under stopLocker (PostStop once, C06).",
 		assumptions: []string{"timing races between a message that arrives and the deadline check (the window between releasing the manager lock and tryPassivation)", "wall-clock behaviour of timers"},
-		minObl:     40,
+		minObl:     57,
 		run:        runC12,
 	})
 }
